@@ -271,13 +271,13 @@ Lemma seize_rule_borrow_sound : forall g b, seize_rule_borrow g b = VSeize ->
   exists cr th, lend_cr b = Ok cr /\ applicable_threshold b = Ok th /\ cr > th /\
                 b_liquidated b = false /\ b_kill b = false.
 Proof.
-  intros g b H. unfold seize_rule_borrow in H.
+  intros g b H. unfold seize_rule_borrow, seize_rule_borrow_of in H.
   destruct (b_found b); cbn in H; [|destruct g; discriminate].
   destruct (b_liquidated b); [discriminate|].
   destruct (b_lend_found b); cbn in H; [|discriminate].
   destruct (b_kill b); [discriminate|].
   destruct (b_interest_ok b); cbn in H; [|discriminate].
-  unfold ratio_above in H.
+  unfold ratio_above, ratio_above_of in H.
   destruct (lend_cr b) as [cr| |]; cbn in H; try discriminate.
   destruct (applicable_threshold b) as [th| |]; cbn in H; try discriminate.
   destruct (cr >? th) eqn:E; cbn in H.
@@ -351,11 +351,17 @@ Qed.
 Lemma borrow_unsafe_spec : forall b, borrow_unsafe b = true ->
   exists cr th, lend_cr b = Ok cr /\ applicable_threshold b = Ok th /\ cr > th.
 Proof.
-  intros b H. unfold borrow_unsafe, ratio_above in H.
+  intros b H. unfold borrow_unsafe, ratio_above, ratio_above_of in H.
   destruct (lend_cr b) as [cr| |]; cbn in H; try discriminate.
   destruct (applicable_threshold b) as [th| |]; cbn in H; try discriminate.
   exists cr, th. repeat split; auto. lia.
 Qed.
+
+(* the runner's one-pass evaluation is the rule, the ratio, the threshold and the safety predicate *)
+Lemma borrow_eval_spec : forall g b,
+  e_v (borrow_eval g b) = seize_rule_borrow g b /\ e_cr (borrow_eval g b) = lend_cr b /\
+  e_th (borrow_eval g b) = applicable_threshold b /\ e_unsafe (borrow_eval g b) = borrow_unsafe b.
+Proof. intros. repeat split. Qed.
 
 (* the threshold applicable to a borrow, case by case, as liquidate.go:295-349 computes it *)
 Lemma applicable_threshold_cases : forall b,
@@ -555,6 +561,40 @@ Proof.
   f_equal; first [apply (list_eqb_eq kv_eqb kv_eqb_eq); assumption
                  |apply (list_eqb_eq zz_eqb zz_eqb_eq); assumption
                  |apply (list_eqb_eq Z.eqb); [intros; lia|assumption]].
+Qed.
+
+Lemma handover_external_one : forall w denom amt,
+  let w' := ext_world w denom amt in
+  kget (w_bal w') (auction_acc, denom) = kget (w_bal w) (auction_acc, denom) + amt /\
+  (forall k, k <> (auction_acc, denom) -> kget (w_bal w') k = kget (w_bal w) k) /\
+  w_locked w' = w_locked w ++ [(0, amt)] /\ w_auction w' = w_auction w ++ [(0, amt)] /\
+  w_liq w' = w_liq w /\ w_lend w' = w_lend w /\ w_tlend w' = w_tlend w /\ w_tborrow w' = w_tborrow w /\
+  w_tstable w' = w_tstable w /\ w_supply w' = w_supply w.
+Proof.
+  intros w denom amt. cbn zeta. unfold ext_world.
+  cbn [w_bal w_supply w_tlend w_tborrow w_tstable w_lend w_liq w_locked w_auction].
+  repeat split.
+  - apply kget_kadd_same.
+  - intros k K. apply kget_kadd_other. intro H. apply K. symmetry; exact H.
+Qed.
+
+Lemma valid_batch_spec : forall b, valid_batch b = true -> 1 <= b /\ int_of_u64 b = b /\ u64 b = b.
+Proof.
+  intros b H. unfold valid_batch in H. unfold int_of_u64, u64, two63, two64 in *.
+  assert (1 <= b < 9223372036854775808) by lia.
+  replace (b >=? 9223372036854775808) with false by lia.
+  rewrite Z.mod_small by lia. lia.
+Qed.
+
+(* a stored batch size outside the validated range (2^63 .. 2^64-1: int() is negative) sweeps nothing,
+   in any block, whatever the list: the reason for the validation bound *)
+Lemma invalid_batch_sweeps_nothing : forall b len off, two63 <= b < two64 -> 0 <= len ->
+  sweep_window len off (int_of_u64 b) = (len, len).
+Proof.
+  intros b len off Hb Hl. unfold sweep_window, slice_bounds, int_of_u64, two63, two64 in *.
+  replace (b >=? 9223372036854775808) with true by lia.
+  replace (b - 18446744073709551616 <? 0) with true by lia.
+  rewrite !Bool.orb_true_r. cbn [fst snd]. rewrite Z.eqb_refl. reflexivity.
 Qed.
 
 Lemma handover_borrow_holds : forall zs w, holds_C09_handover_borrow w (fold_left seize_borrow_world zs w) zs = true.
